@@ -22,6 +22,7 @@ type PathResult struct {
 	Bounded   map[string]int
 	Calls     []string
 	PC        []*smt.Term
+	Used      map[string]bool
 }
 
 // FuncResult is the outcome of exploring one function under contract.
@@ -43,7 +44,7 @@ type Env struct {
 func (e *Env) newExec(prefix []int, pending *[][]int) *Exec {
 	return &Exec{
 		Cfg: e.Cfg, dec: append([]int(nil), prefix...), pending: pending,
-		Bounded: map[string]int{}, lenChoice: map[string]int{}, globals: map[*ssa.Global]*Cell{},
+		Bounded: map[string]int{}, lenChoice: map[string]int{}, globals: map[*ssa.Global]*Cell{}, UsedContracts: map[string]bool{},
 		siteCount: map[string]int{}, worldBase: "",
 	}
 }
@@ -84,6 +85,7 @@ func (e *Env) Explore(maxPaths int, body func(ex *Exec)) (paths []*PathResult, c
 		pr.Bounded = ex.Bounded
 		pr.Calls = ex.Calls
 		pr.PC = ex.pc
+		pr.Used = ex.UsedContracts
 		paths = append(paths, pr)
 	}
 	return paths, false
@@ -135,7 +137,10 @@ func (e *Env) snapshotOld(ex *Exec, fn *ssa.Function, args []Val, ev *evalEnv) {
 }
 
 func (e *Env) bindResults(fn *ssa.Function, res Val, ev *evalEnv) {
-	rs := fn.Signature.Results()
+	e.bindResultsSig(fn.Signature.Results(), res, ev)
+}
+
+func (e *Env) bindResultsSig(rs *types.Tuple, res Val, ev *evalEnv) {
 	var vals []Val
 	switch rs.Len() {
 	case 0:
@@ -196,6 +201,7 @@ func (e *Env) VerifyFunc(fn *ssa.Function, ct *Contract, maxPaths int) *FuncResu
 	defer func() { e.Cfg.Bounds = saved; e.Cfg.DecAbstract = savedDec }()
 	fkey := FuncKey(fn)
 	paths, capped := e.Explore(maxPaths, func(ex *Exec) {
+		ex.TopKey = fkey
 		args, ev, _ := e.bindArgs(ex, fn, ct)
 		if ct != nil {
 			for _, r := range ct.Requires {
@@ -393,18 +399,30 @@ func (ex *Exec) keyTerms(v Val) []*smt.Term {
 // applyContract is the modular treatment of a call: prove requires, havoc modifies,
 // assume ensures.
 func (ex *Exec) applyContract(fr *frame, fn *ssa.Function, ct *Contract, args []Val, ins ssa.Instruction) Val {
+	var names []string
+	var ptypes []types.Type
+	for i, p := range fn.Params {
+		names = append(names, paramName(p, i))
+		ptypes = append(ptypes, p.Type())
+	}
+	var pkg *types.Package
+	if fn.Pkg != nil {
+		pkg = fn.Pkg.Pkg
+	}
+	return ex.applyContractSig(fr, FuncKey(fn), pkg, names, ptypes, fn.Signature.Results(), ct, args)
+}
+
+func (ex *Exec) applyContractSig(fr *frame, calleeKey string, pkg *types.Package, names []string, ptypes []types.Type, rs *types.Tuple, ct *Contract, args []Val) Val {
 	env := ex.Cfg.EnvRef
 	ev := &evalEnv{ex: ex, vars: map[string]tval{}, oldVars: map[string]tval{}, specs: env.Specs}
-	if fn.Pkg != nil {
-		ev.pkg = fn.Pkg.Pkg
-	}
+	ev.pkg = pkg
 	caller := "spec"
 	if fr != nil {
 		caller = FuncKey(fr.fn)
 	}
-	label := ex.site(caller + "/call:" + FuncKey(fn))
-	for i, p := range fn.Params {
-		ev.vars[paramName(p, i)] = tval{args[i], p.Type()}
+	label := ex.site(caller + "/call:" + calleeKey)
+	for i := range names {
+		ev.vars[names[i]] = tval{args[i], ptypes[i]}
 	}
 	for n, s := range ct.Foralls {
 		ev.vars[n] = tval{smt.Var(ex.freshName("any."+n), s), nil}
@@ -416,7 +434,14 @@ func (ex *Exec) applyContract(fr *frame, fn *ssa.Function, ct *Contract, args []
 		}
 		ex.assume(g)
 	}
-	env.snapshotOld(ex, fn, args, ev)
+	for i := range names {
+		switch a := args[i].(type) {
+		case *CtxV:
+			ev.oldVars[names[i]] = tval{&CtxV{W: a.W.Clone(), Time: a.Time, Height: a.Height}, ptypes[i]}
+		default:
+			ev.oldVars[names[i]] = tval{copyDeep(args[i]), ptypes[i]}
+		}
+	}
 	env.evalLets(ct, ev, true)
 	mods, err := parseModifies(ct.Modifies)
 	if err != nil {
@@ -491,7 +516,6 @@ func (ex *Exec) applyContract(fr *frame, fn *ssa.Function, ct *Contract, args []
 		}
 	}
 	// results
-	rs := fn.Signature.Results()
 	var res Val
 	switch rs.Len() {
 	case 0:
@@ -504,11 +528,12 @@ func (ex *Exec) applyContract(fr *frame, fn *ssa.Function, ct *Contract, args []
 		}
 		res = tv
 	}
-	env.bindResults(fn, res, ev)
+	env.bindResultsSig(rs, res, ev)
 	env.evalLets(ct, ev, false)
 	for _, c := range ct.Ensures {
 		ex.assume(ev.bool(c.Expr))
 	}
+	ex.UsedContracts[ct.PkgPath+" "+ct.Key] = true
 	return res
 }
 
